@@ -245,7 +245,7 @@ Section Peel.
   Qed.
 
   (* ---- the peeling loop, for any sound and complete path finder ---- *)
-  Variable find : (edge -> Z) -> outcome.
+  Variable find : (edge -> Z) -> mb_outcome.
   Hypothesis find_sound : forall f b p, nonneg f -> conserving f -> find f = MBPath b p ->
     0 < b /\ ss_path p /\ (forall e, In e (pairs p) -> b <= f e) /\ (exists e, In e (pairs p) /\ f e = b).
   Hypothesis find_complete : forall f, nonneg f -> conserving f -> find f = MBNoPath ->
